@@ -66,7 +66,7 @@ func zbFactsForPath(ctx *Ctx, fn *ssa.Function, pa *Path, all []*Path, nAtoms in
 	z := newZB()
 	var diseq []Atom
 	for _, a := range pa.Atoms[:nAtoms] {
-		if a.T.Op == "bin" && a.T.Name == "==" && !a.Pos {
+		if a.T.Op == "bin" && a.T.Name == "==" && !a.Pos && !a.T.Args[0].IsConst(`""`) && !a.T.Args[1].IsConst(`""`) {
 			diseq = append(diseq, a)
 			// still linearise both sides so that their axioms are registered
 			if isIntegerish(a.T.Args[0]) || isIntegerish(a.T.Args[1]) {
@@ -421,7 +421,7 @@ func inductionFacts(z *zbCtx, fn *ssa.Function, pa *Path, all []*Path) []indFact
 			for _, ep := range entryPaths {
 				ze := newZB()
 				for _, a := range ep.Atoms {
-					if a.T.Op == "bin" && a.T.Name == "==" && !a.Pos {
+					if a.T.Op == "bin" && a.T.Name == "==" && !a.Pos && !a.T.Args[0].IsConst(`""`) && !a.T.Args[1].IsConst(`""`) {
 						l, r := ze.lin(a.T.Args[0]), ze.lin(a.T.Args[1])
 						if isIntegerish(a.T.Args[0]) || isIntegerish(a.T.Args[1]) {
 							d := l.add(r, -1)
@@ -457,6 +457,27 @@ func inductionFacts(z *zbCtx, fn *ssa.Function, pa *Path, all []*Path) []indFact
 		}
 	}
 	return out
+}
+
+// ssaAffine peels additions and subtractions of integer constants.
+func ssaAffine(v ssa.Value) (ssa.Value, int64) {
+	off := int64(0)
+	for {
+		b, ok := v.(*ssa.BinOp)
+		if !ok || (b.Op != token.ADD && b.Op != token.SUB) {
+			return v, off
+		}
+		c, ok := b.Y.(*ssa.Const)
+		if !ok || c.Value == nil {
+			return v, off
+		}
+		if b.Op == token.ADD {
+			off += c.Int64()
+		} else {
+			off -= c.Int64()
+		}
+		v = b.X
+	}
 }
 
 // boundsOf checks every bounds event on every path of fn.
@@ -808,25 +829,31 @@ func checkC17(ctx *Ctx) *Result {
 
 	// ---- R17.c -----------------------------------------------------------
 	for _, cs := range we.callers[p.Func(pkgUtil, "(SortedSet).IndexAfter")] {
-		arg := cs.Call.Common().Args[1]
+		// the starting point is -1, or a loop-carried value that is -1 initially
+		// and a previous result afterwards — possibly kept shifted by a constant
+		arg, d := ssaAffine(cs.Call.Common().Args[1])
 		good, detail := false, ""
 		switch v := arg.(type) {
 		case *ssa.Const:
-			good = v.Int64() == -1
-			detail = "IndexAfter called with the constant " + v.Value.String()
+			good = v.Int64()+d == -1
+			detail = fmt.Sprintf("IndexAfter called with the constant %d", v.Int64()+d)
 		case *ssa.Phi:
 			good = true
 			for _, e := range v.Edges {
-				switch ev := e.(type) {
+				eb, eo := ssaAffine(e)
+				switch ev := eb.(type) {
 				case *ssa.Const:
-					if ev.Int64() != -1 {
-						good, detail = false, "position initialised to "+ev.Value.String()
+					if ev.Int64()+eo+d != -1 {
+						good, detail = false, fmt.Sprintf("position initialised to %d", ev.Int64()+eo+d)
 					}
 				case *ssa.Phi:
 					// nested loop header: same value carried
+					if eo != 0 {
+						good, detail = false, "position comes from "+e.String()
+					}
 				case *ssa.Call:
-					if f := ev.Common().StaticCallee(); f == nil || funcName(f) != "(util.SortedSet).IndexAfter" || ev.Common().Args[0] != cs.Call.Common().Args[0] {
-						good, detail = false, "position comes from "+ev.String()
+					if f := ev.Common().StaticCallee(); f == nil || funcName(f) != "(util.SortedSet).IndexAfter" || ev.Common().Args[0] != cs.Call.Common().Args[0] || eo+d != 0 {
+						good, detail = false, "position comes from "+e.String()
 					}
 				default:
 					good, detail = false, "position comes from "+e.String()
@@ -842,7 +869,7 @@ func checkC17(ctx *Ctx) *Result {
 		bad := ""
 		for _, pa := range p.NewExec(nil).Summarize(fnc) {
 			for name, v := range pa.Next {
-				if v.Op == "call" && v.Name == "(util.SortedSet).IndexAfter" {
+				if v, _ := affine(v); v.Op == "call" && v.Name == "(util.SortedSet).IndexAfter" {
 					if pa.Val("bin:<("+v.Key()+", 0)") != -1 {
 						bad = "the position " + name + " is updated with a possibly negative IndexAfter result"
 					}
